@@ -966,19 +966,19 @@ LED565 = '(((2 * r{i} * 31 + 255) // 510) * 2048 + ((2 * g{i} * 63 + 255) // 510
           clause='the LED timing image is one 4-byte record per timing (duration, RGB565 big endian with each colour rounded to the nearest 5/6/5 '
                  'bit level, leds | fade << 4 | rotate << 5), in order, a timing that would read as the all-zero terminator is not emitted, and '
                  'the image ends with the all-zero terminator record; written once (flushed) at address 0',
-          bounded='two timings; time and colours 0..255, leds 0..15, rotate 0..7 (the representable field values)')
+          bounded='two timings; time 0..65535 (only the low byte is transmitted), colours 0..255, leds 0..15, rotate 0..7')
 def ledtimings_write(c):
     mh = c.ext('mh')
     m = c.new(LEDT + ':LEDTimingsDriverMemory', 6, 0x17, 2000, mh)
     c.let('m', m)
     for i in (0, 1):
-        c.int('time%d' % i, 0, 255), c.int('r%d' % i, 0, 255), c.int('g%d' % i, 0, 255), c.int('b%d' % i, 0, 255)
+        c.int('time%d' % i, 0, 65535), c.int('r%d' % i, 0, 255), c.int('g%d' % i, 0, 255), c.int('b%d' % i, 0, 255)
         c.int('leds%d' % i, 0, 15), c.bool('fade%d' % i), c.int('rotate%d' % i, 0, 7)
         c.call((m, 'add'), c.get('time%d' % i), c.dict([('r', c.get('r%d' % i)), ('g', c.get('g%d' % i)), ('b', c.get('b%d' % i))]),
                c.get('leds%d' % i), c.get('fade%d' % i), c.get('rotate%d' % i))
         c.require('raised is None')
         c.snapshot('led%d' % i, LED565.format(i=i))
-        c.snapshot('rec%d' % i, '(time{i}, led{i} // 256, led{i} % 256, leds{i} + (16 if fade{i} else 0) + rotate{i} * 32)'.format(i=i))
+        c.snapshot('rec%d' % i, '(time{i} % 256, led{i} // 256, led{i} % 256, leds{i} + (16 if fade{i} else 0) + rotate{i} * 32)'.format(i=i))
     c.reset_trace()
     c.call((m, 'write_data'), c.ext('done'))
     c.ensure('no-exception', 'raised is None')
